@@ -250,7 +250,7 @@ func genCase(t *rapid.T, scan bool) Case {
 		c.CbLatMs = append(c.CbLatMs, []int64{0, 0, 0, 1, 7, 60}[rapid.IntRange(0, 5).Draw(t, "cbLat")])
 	}
 
-	c.PoolSeed = rapid.IntRange(0, 41).Draw(t, "poolSeed")
+	c.PoolSeed = rapid.IntRange(0, 47).Draw(t, "poolSeed")
 	c.PoolStride = rapid.IntRange(1, 7).Draw(t, "poolStride")
 
 	// stop / cancel
@@ -271,7 +271,7 @@ func genCase(t *rapid.T, scan bool) Case {
 	}
 
 	if scan {
-		c.Matcher = weighted(t, "matcher", 3, 1, 2, 3, 3, 1, 1)
+		c.Matcher = weighted(t, "matcher", 3, 1, 2, 3, 3, 1, 1, 1)
 		c.MatchArg = rapid.IntRange(0, 400).Draw(t, "matchArg")
 		c.MatchMod = rapid.IntRange(2, 7).Draw(t, "matchMod")
 		c.PrecertOnly = weighted(t, "precertOnly", 2, 1) == 1
